@@ -1898,9 +1898,11 @@ func (p *balloons) pinCpuMem(c cache.Container, cpus cpuset.CPUSet, mems idset.I
 			if err != nil {
 				log.Error("failed to parse CpusetMems: %v", err)
 			} else {
+				// Account the memory of the container where it is, but leave its
+				// pinning alone: that is what preserving means, also when the
+				// allocator had to account it on more nodes than it is pinned to.
 				zone := p.allocMem(c, preserveMems, 0, true)
 				log.Debug("  - allocated preserved memory %s", c.PrettyName, zone)
-				c.SetCpusetMems(zone.MemsetString())
 			}
 		} else {
 			effMemTypeMask, err := c.MemoryTypes()
@@ -1979,7 +1981,7 @@ func (p *balloons) allocMem(c cache.Container, mems idset.IDSet, types libmem.Ty
 	}
 
 	for oID, oz := range updates {
-		if oc, ok := p.cch.LookupContainer(oID); ok {
+		if oc, ok := p.cch.LookupContainer(oID); ok && !oc.PreserveMemoryResources() {
 			oc.SetCpusetMems(oz.MemsetString())
 		}
 	}
